@@ -1,7 +1,7 @@
 ------------------------------- MODULE H_Exec -------------------------------
 (* Level A: what an observable history of work-unit execution may look like
    (C01 exactly-once execution, C03 join/free, C06 stream join / finalize and
-   the blocked counter, C12 life cycle).
+   the blocked counter, C11 suspend/resume, C12 life cycle, C13 migration).
 
    status of a work unit (one incarnation at a time):
      none -> created -> running -> (blocked -> resumable -> running)* -> done -> freed
@@ -17,58 +17,106 @@ VARIABLES st,     \* status
           tok,    \* value the unit published before terminating (0 if it never finished normally)
           cst,    \* cancellation: 0 none, 1 requested, 2 request returned, 3 honoured
           starts, \* number of Start observations of the current incarnation
-          inYield \* the unit announced a scheduling point and has not reported back
-hvars == <<st, arg, tok, cst, starts, inYield>>
+          inYield,\* the unit announced a scheduling point and has not reported back
+          mg      \* migration (C13), per unit: [pool, old, pend, armed, must, ncb, able]
+hvars == <<st, arg, tok, cst, starts, inYield, mg>>
+
+NoPool == -2      \* no pending target
+AnyPool == -1     \* target chosen by the runtime (ABT_thread_migrate) / not yet observed
+Mg0 == [pool |-> NoPool, old |-> NoPool, pend |-> NoPool, armed |-> FALSE, must |-> FALSE, ncb |-> 0, able |-> TRUE]
 
 HInit == /\ st = [u \in Units |-> "none"] /\ arg = [u \in Units |-> 0] /\ tok = [u \in Units |-> 0]
          /\ cst = [u \in Units |-> 0] /\ starts = [u \in Units |-> 0] /\ inYield = [u \in Units |-> FALSE]
+         /\ mg = [u \in Units |-> Mg0]
 
 ByOK(by) == IF by <= 0 THEN TRUE ELSE st[by] = "running"
 Terminated(u) == st[u] \in {"done", "freed"}
 
-Create(by, u, a) == /\ ByOK(by) /\ st[u] = "none"
-                    /\ st' = [st EXCEPT ![u] = "created"] /\ arg' = [arg EXCEPT ![u] = a]
-                    /\ UNCHANGED <<tok, cst, starts, inYield>>
+Create(by, u, a, pool, able) ==
+    /\ ByOK(by) /\ st[u] = "none"
+    /\ st' = [st EXCEPT ![u] = "created"] /\ arg' = [arg EXCEPT ![u] = a]
+    /\ mg' = [mg EXCEPT ![u] = [Mg0 EXCEPT !.pool = pool, !.able = able]]
+    /\ UNCHANGED <<tok, cst, starts, inYield>>
 \* the function is invoked exactly once, with the argument it was given
 Start(u, a, n) == /\ st[u] = "created" /\ a = arg[u] /\ n = 1
                   /\ st' = [st EXCEPT ![u] = "running"] /\ starts' = [starts EXCEPT ![u] = @ + 1]
-                  /\ UNCHANGED <<arg, tok, cst, inYield>>
+                  /\ UNCHANGED <<arg, tok, cst, inYield, mg>>
 Finish(u) == /\ st[u] = "running"
              /\ st' = [st EXCEPT ![u] = "done"] /\ tok' = [tok EXCEPT ![u] = arg[u]]
-             /\ UNCHANGED <<arg, cst, starts, inYield>>
-\* a scheduling point: a unit whose cancellation request has returned stops here
+             /\ UNCHANGED <<arg, cst, starts, inYield, mg>>
+\* a scheduling point: a unit whose cancellation request has returned stops
+\* here; a unit with an accepted migration request must move before it runs again
 Yield(u) == /\ st[u] = "running"
             /\ IF cst[u] = 2 THEN st' = [st EXCEPT ![u] = "done"] /\ cst' = [cst EXCEPT ![u] = 3]
                              ELSE UNCHANGED <<st, cst>>
             /\ inYield' = [inYield EXCEPT ![u] = TRUE]
+            /\ mg' = [mg EXCEPT ![u].must = mg[u].armed]
             /\ UNCHANGED <<arg, tok, starts>>
-Back(u) == /\ st[u] = "running" /\ inYield' = [inYield EXCEPT ![u] = FALSE]
-           /\ UNCHANGED <<st, arg, tok, cst, starts>>
+\* the unit runs again; p = the pool it was taken from (NoPool when not reported)
+Back(u, p) ==
+    /\ st[u] = "running" /\ inYield' = [inYield EXCEPT ![u] = FALSE]
+    /\ ~mg[u].must
+    /\ IF p = NoPool THEN UNCHANGED mg
+       ELSE IF mg[u].pool = AnyPool
+            THEN p # mg[u].old /\ mg' = [mg EXCEPT ![u].pool = p]      \* some *other* stream's pool
+            ELSE p = mg[u].pool /\ UNCHANGED mg
+    /\ UNCHANGED <<st, arg, tok, cst, starts>>
 \* unobserved: a unit waiting at a scheduling point whose cancellation has been
 \* requested is terminated instead of being run again
 Honour(u) == /\ st[u] = "running" /\ inYield[u] /\ cst[u] \in {1, 2}
              /\ st' = [st EXCEPT ![u] = "done"] /\ cst' = [cst EXCEPT ![u] = 3]
-             /\ UNCHANGED <<arg, tok, starts, inYield>>
-Suspend(u) == /\ st[u] = "running" /\ st' = [st EXCEPT ![u] = "blocked"] /\ UNCHANGED <<arg, tok, cst, starts, inYield>>
+             /\ UNCHANGED <<arg, tok, starts, inYield, mg>>
+Suspend(u) == /\ st[u] = "running" /\ st' = [st EXCEPT ![u] = "blocked"]
+              /\ mg' = [mg EXCEPT ![u].must = mg[u].armed]
+              /\ UNCHANGED <<arg, tok, cst, starts, inYield>>
 \* a suspended unit runs again only after it is resumed, and once per resume;
 \* if it was cancelled meanwhile it terminates instead of running
 Resume(by, u) == /\ ByOK(by) /\ st[u] = "blocked"
                  /\ IF cst[u] = 2 THEN st' = [st EXCEPT ![u] = "done"] /\ cst' = [cst EXCEPT ![u] = 3]
                                   ELSE st' = [st EXCEPT ![u] = "resumable"] /\ UNCHANGED cst
-                 /\ UNCHANGED <<arg, tok, starts, inYield>>
-Resumed(u) == /\ st[u] = "resumable" /\ st' = [st EXCEPT ![u] = "running"] /\ UNCHANGED <<arg, tok, cst, starts, inYield>>
+                 /\ UNCHANGED <<arg, tok, starts, inYield, mg>>
+Resumed(u) == /\ st[u] = "resumable" /\ st' = [st EXCEPT ![u] = "running"]
+              /\ UNCHANGED <<arg, tok, cst, starts, inYield, mg>>
 Cancel(by, u) == /\ ByOK(by) /\ cst[u] = 0 /\ ~Terminated(u) /\ st[u] # "none"
-                 /\ cst' = [cst EXCEPT ![u] = 1] /\ UNCHANGED <<st, arg, tok, starts, inYield>>
-CancelRet(by, u) == /\ cst[u] = 1 /\ cst' = [cst EXCEPT ![u] = 2] /\ UNCHANGED <<st, arg, tok, starts, inYield>>
+                 /\ cst' = [cst EXCEPT ![u] = 1] /\ UNCHANGED <<st, arg, tok, starts, inYield, mg>>
+CancelRet(by, u) == /\ cst[u] = 1 /\ cst' = [cst EXCEPT ![u] = 2] /\ UNCHANGED <<st, arg, tok, starts, inYield, mg>>
 \* join returns only after termination, sees TERMINATED and the target's writes
-JoinRet(by, u, state, t) == /\ ByOK(by) /\ Terminated(u) /\ st[u] = "done" /\ state = 3 /\ t = tok[u]
+JoinRet(by, u, state, t) == /\ ByOK(by) /\ st[u] = "done" /\ state = 3 /\ t = tok[u]
                             /\ UNCHANGED hvars
 FreeRet(by, u, isnull, t) == /\ ByOK(by) /\ st[u] = "done" /\ isnull = 1 /\ t = tok[u]
-                             /\ st' = [st EXCEPT ![u] = "freed"] /\ UNCHANGED <<arg, tok, cst, starts, inYield>>
-Revive(by, u, a) == /\ ByOK(by) /\ st[u] = "done"
-                    /\ st' = [st EXCEPT ![u] = "created"] /\ arg' = [arg EXCEPT ![u] = a]
-                    /\ tok' = [tok EXCEPT ![u] = 0] /\ cst' = [cst EXCEPT ![u] = 0]
-                    /\ starts' = [starts EXCEPT ![u] = 0] /\ inYield' = [inYield EXCEPT ![u] = FALSE]
+                             /\ st' = [st EXCEPT ![u] = "freed"] /\ UNCHANGED <<arg, tok, cst, starts, inYield, mg>>
+Revive(by, u, a, pool) ==
+    /\ ByOK(by) /\ st[u] = "done"
+    /\ st' = [st EXCEPT ![u] = "created"] /\ arg' = [arg EXCEPT ![u] = a]
+    /\ tok' = [tok EXCEPT ![u] = 0] /\ cst' = [cst EXCEPT ![u] = 0]
+    /\ starts' = [starts EXCEPT ![u] = 0] /\ inYield' = [inYield EXCEPT ![u] = FALSE]
+    /\ mg' = [mg EXCEPT ![u] = [Mg0 EXCEPT !.pool = pool, !.able = mg[u].able]]
+
+\* ---------------------------------------------------------------- migration
+\* A request names a target pool (or AnyPool).  It is accepted iff the unit is
+\* migratable and the target differs from the pool it is associated with.
+\* (Requests for one unit are issued one at a time, or by the unit itself.)
+MigReq(by, u, tgt) ==
+    /\ ByOK(by) /\ st[u] \in {"created", "running", "blocked", "resumable"}
+    /\ mg' = [mg EXCEPT ![u].pend = IF mg[u].able /\ tgt # mg[u].pool THEN tgt ELSE @]
+    /\ UNCHANGED <<st, arg, tok, cst, starts, inYield>>
+\* ret: 0 accepted, 1 rejected: same pool, 2 rejected: not migratable, 3 "no target stream"
+MigRet(by, u, ret) ==
+    /\ CASE ret = 0 -> mg[u].able                  \* (the target check was made at MigReq)
+         [] ret = 1 -> mg[u].able /\ mg[u].pend = NoPool
+         [] ret = 2 -> ~mg[u].able
+         [] OTHER -> FALSE                         \* ABT_thread_migrate must find another running stream
+    \* armed unless the migration has already been performed meanwhile
+    /\ mg' = [mg EXCEPT ![u].armed = (ret = 0 /\ mg[u].pend # NoPool)]
+    /\ UNCHANGED <<st, arg, tok, cst, starts, inYield>>
+\* the migration callback: the migration is performed here, exactly once per request
+MigCb(u) ==
+    /\ mg[u].pend # NoPool
+    /\ mg' = [mg EXCEPT ![u] = [@ EXCEPT !.old = mg[u].pool, !.pool = mg[u].pend, !.pend = NoPool,
+                                         !.armed = FALSE, !.must = FALSE, !.ncb = @ + 1]]
+    /\ UNCHANGED <<st, arg, tok, cst, starts, inYield>>
+MigCount(u, n) == n = mg[u].ncb /\ UNCHANGED hvars
+
 \* stream join / finalize return only after every covered unit has terminated
 AllTerminated(us) == \A u \in us : Terminated(u)
 NoOp == UNCHANGED hvars
